@@ -30,19 +30,31 @@ META = {
     "design_ref": "§6 C03, §5.2",
     "technique": "Lean 4: mixed-radix routing theorem + node-level fan-in theorem + kernel-evaluated witnesses; "
     "executable Lean spec interpreter and Lean model of pydra's state machinery run against the implementation on generated workflows",
-    "text": "PARTIAL (layered).  Proved in Lean, for any number of upstream states and any axis sizes: the index that "
+    "text": "PARTIAL (layered).  (1) WORKFLOW LEVEL, proved in Lean (C03_workflow_Simple_partial): for EVERY workflow of the "
+    "decidable class Simple — any number of nodes and any wiring, own splitters absent / over one field / outer over two fields, "
+    "list lengths >= 1, no combiner, no scalar splitter, and at every node the connected upstream states and the own splitter "
+    "have pairwise disjoint duplicate-free axes, each upstream state feeds one field, no connected upstream state is fed by "
+    "another connected one (NoSharedOrigin on axes) — the whole model of pydra's mechanism (both construction passes incl. "
+    "_add_state_history/_complete_prev_state/_remove_repeated and the second pass of _create_graph, set_input_groups, "
+    "prepare_states_ind/prepare_inputs, _split_task, LazyOutField._get_value) and the nested-loop reference both succeed with "
+    "equal workflow outputs, equal job counts and equal job outputs at every node.  (2) NODE LEVEL, any number of upstream "
+    "states and any axis sizes: the index that "
     "State.prepare_inputs assigns to an upstream in the outer product [_U1,…,_Uk] (+ own splitter) is the position of the job's "
     "coordinates restricted to that upstream's axes (C03_routing, mixed radix, by induction); for a node whose upstream final "
     "states have pairwise disjoint duplicate-free axes, each connected through one field, the model's inputs_ind entry equals "
     "the index the nested-loop reference reads (C03_fanin_disjoint, C03_chain); _add_state_history is the identity when no "
     "connected state's history meets a connected root (C03_history_noop); with duplicate-free keys the code's group selection "
-    "by dictionary inclusion equals the reference's selection by coordinate restriction (C03_group_test).  Kernel-evaluated witnesses show the model of the "
+    "by dictionary inclusion equals the reference's selection by coordinate restriction (C03_group_test).  (3) Kernel-evaluated "
+    "witnesses show the model of the "
     "code differs from the reference on the diamond (|A|² jobs, D2) and on six further shapes, so C03_full_statement is "
-    "stated and refuted for the model, not claimed.  NOT proved: that Model.run = Spec.run for every workflow of the class — "
-    "the composition of the bookkeeping passes with the node step is TESTED: every generated workflow (≤ 5 nodes; chain, fan-in, "
+    "stated and refuted for the model, not claimed.  NOT proved: Model.run = Spec.run for the rest of the empirical class "
+    "(combiners, scalar splitters, shared origins the mechanism happens to handle) — there the composition is TESTED: every "
+    "generated workflow (≤ 5 nodes; chain, fan-in, "
     "fan-out, triangle, diamond, random DAG, nodes optionally nested workflows; outer/inner splits over 1–2 of 3 fields, lists of length 1–3, combiners over own "
-    "and inherited axes) is executed by pydra (debug worker), by the Lean spec interpreter and by the Lean model; workflow outputs, "
-    "per-node job counts and per-node job inputs (read from the cache root) are compared three ways.",
+    "and inherited axes; a dense stream of chains/fan-ins whose nodes have an upstream state AND an own outer/scalar splitter AND a "
+    "combiner over own / inherited / mixed axes) is executed by pydra (debug worker), by the Lean spec interpreter and by the Lean model; workflow outputs, "
+    "per-node job counts and per-node job inputs (read from the cache root) are compared three ways; on every fourth workflow "
+    "a second run over the same objects is compared with the model's second run (Model.runTwice, used by C30).",
     "note": "Trusted: Lean kernel; hand-written Lean model of State/_create_graph/NodeExecution/LazyOutField (tied to the code "
     "only by differential execution); generator reach (one task type whose output encodes its inputs; no splits over "
     "upstream outputs, nested workflows only as two-node encoders, no explicit `_U` references in splitters).  Inside the class every disagreement is "
@@ -77,10 +89,20 @@ OBLIGATIONS = [
         "C03_witness_name_clash",
         "C03_full_statement_false",
         "C03_no_shared_origin_not_enough",
+        "C03_workflow_Simple_partial",
+        "simpleExample_in_class",
+        "simpleExample_jobs",
     )
 ]
 LEAN_TARGETS = ["PydraModel.Props.C03"]
-MODEL_TARGETS = ["PydraModel.WfState.Spec", "PydraModel.WfState.Model", "PydraModel.WfState.Class", "PydraModel.DriverUtil"]
+MODEL_TARGETS = [
+    "PydraModel.WfState.Spec",
+    "PydraModel.WfState.Model",
+    "PydraModel.WfState.Rerun",
+    "PydraModel.WfState.Class",
+    "PydraModel.WfState.Simple",
+    "PydraModel.DriverUtil",
+]
 
 F3 = ("x", "y", "z")
 CORPUS = core.VERIF / "corpus" / "wfstate"
@@ -620,10 +642,12 @@ def _norm(obs, case):
 
 def run_cases(ctx, cases, label="generated"):
     cases = [c for c in cases]
-    impls = []
-    for c in cases:
-        r = wfstate.run_case(_strip(c), ctx.scratch)
+    impls, reruns = [], []
+    for k, c in enumerate(cases):
+        # every fourth workflow is run a second time over the same constructed objects (C30's repeated-run model)
+        r = wfstate.run_case(_strip(c), ctx.scratch, rerun=(k % 4 == 0))
         r.pop("phase", None)
+        reruns.append(r.pop("rerun", None))
         impls.append(r)
     ans = ctx.driver("WfState", [_strip(c) for c in cases])
     results = []
@@ -641,6 +665,26 @@ def run_cases(ctx, cases, label="generated"):
                 ctx.tie_broken.append({"kind": "class-predicate-mismatch", "case": c, "python": fl, "lean": lean_fl})
             if not a["cls"].get("wellFormed"):
                 ctx.tie_broken.append({"kind": "generator-left-domain", "case": c})
+            if a["cls"].get("simple"):
+                # the class of the workflow-level theorem: inside the empirical class, and model = reference (proved)
+                ctx.count("class:Simple (theorem applies)")
+                ctx.extra["simple_class_cases"] = ctx.extra.get("simple_class_cases", 0) + 1
+                if not fl["inClass"] or a["model"] != a["spec"]:
+                    ctx.tie_broken.append({"kind": "Simple-class-contradicts-theorem-or-inClass", "case": c, "flags": fl,
+                                           "model": a["model"], "spec": a["spec"]})
+            if reruns[k] is not None and a.get("model2") is not None:
+                m2 = _norm(a["model2"], c)
+                first = {k2: v for k2, v in i.items()}
+                same = reruns[k] == first
+                ctx.count("rerun:" + ("same-as-first" if same else "differs-from-first") + (":in-class" if fl["inClass"] else ":outside"))
+                if m2 != reruns[k]:
+                    if fl["inClass"]:
+                        ctx.tie_broken.append({"kind": "second-run-model-disagrees", "case": c, "impl_second": reruns[k], "model_second": m2})
+                    else:
+                        ctx.count("rerun:model-disagrees-outside-class")
+                elif not same and fl["inClass"]:
+                    # a second run that differs inside the class would be a C30 defect no finding explains
+                    ctx.tie_broken.append({"kind": "second-run-differs-inside-class", "case": c, "first": first, "second": reruns[k]})
         if model is not None and ("unmodelled" in model or "malformed" in model):
             ctx.count("model:unmodelled")
             model = None
